@@ -601,7 +601,7 @@ class DocGen:
         kind = rng.random()
         ch = []
         if kind < 0.7:
-            num_id = rng.choice(["1", "2", "3", "4", "5", "99", "0"])
+            num_id = rng.choice(["1", "2", "3", "4", "5", "99", "0"] + (["6", "7"] if self.pf.get("p_num_noise") else []))   # 6, 7: restarted twins of 1, 4
             ch = [el("w:ilvl", [("w:val", str(rng.randint(0, 5)))]), el("w:numId", [("w:val", num_id)])]
         elif kind < 0.85:
             ch = [el("w:numId", [("w:val", "1")])]
@@ -809,6 +809,13 @@ class DocGen:
                el("w:num", [("w:numId", "3")], [el("w:abstractNumId", [("w:val", "2")])]),
                el("w:num", [("w:numId", "4")], [el("w:abstractNumId", [("w:val", "3")])]),
                el("w:num", [("w:numId", "5")], [el("w:abstractNumId", [("w:val", "77")])])]
+        if self.pf.get("p_num_noise") and rng.random() < self.pf.get("p_num_noise"):
+            # opt-in (no random draw otherwise): Word's decoration of numbering.xml, level overrides, restarted twins of num 1 and 4
+            from gen_numbering import numbering_noise
+            noisy = el("w:numbering", [], ch)
+            for f in sorted(numbering_noise(rng, noisy, 0.5, {"1": "6", "4": "7"})):
+                self.hit(f)
+            return noisy
         return el("w:numbering", [], ch)
 
     def package(self, body_blocks=None):
